@@ -14,7 +14,7 @@ Definition prun_view (v : gview) (ops : list (pop Z)) : list (gout (list Z)) :=
                (fun cs (_ : Z) (s : Z) => oc_list (fst cs) ++ [s]) ops (osu_new TS [] objs)
   | VTaiko flags =>
       run_pops (fun n => taiko_nth TS trace_process flags n) (taiko_len TS flags) (@tg_idx TS)
-               (fun (c : Z) (_ : Z) (s : Z) => [c; s]) ops (taiko_new TS [])
+               (fun (cs : Z * TS) (_ : Z) (s : Z) => [fst cs; s]) ops (taiko_new TS [])
   | VCatch evs =>
       run_pops (catch_nth TS trace_process evs) (catch_len TS evs) (@g_idx TS ccounts)
                (fun cs (_ : Z) (s : Z) => cc_list (fst cs) ++ [s]) ops (catch_new TS [] evs)
@@ -31,7 +31,7 @@ Definition ppassed_view (v : gview) (ops : list (pop Z)) : list (gout (list Z)) 
                (fun _ (i : Z) (_ : Z) => [i]) ops (osu_new TS [] objs)
   | VTaiko flags =>
       run_pops (fun n => taiko_nth TS trace_process flags n) (taiko_len TS flags) (@tg_idx TS)
-               (fun (_ : Z) (i : Z) (_ : Z) => [i]) ops (taiko_new TS [])
+               (fun (_ : Z * TS) (i : Z) (_ : Z) => [i]) ops (taiko_new TS [])
   | VCatch evs =>
       run_pops (catch_nth TS trace_process evs) (catch_len TS evs) (@g_idx TS ccounts)
                (fun _ (i : Z) (_ : Z) => [i]) ops (catch_new TS [] evs)
